@@ -111,7 +111,7 @@ def build(sp, omit=(), labels=None, originals=None):
 def make_domain(sp):
     """the Domain of a spec, reached through the configuration path sp['via']:
     'dr' (default) constructor with dr | 'dk' constructor with the conjugate dk | 'setters' another domain re-configured
-    through the length and dr setters | 'setters_dk' re-configured through dk then length"""
+    through the length and dr setters | 'setters_dk' re-configured through length then dk | 'dk_then_length' dk constructor followed by a length change only"""
     via = sp.get('via', 'dr')
     L, dr = int(sp['L']), (sp['dr'] if isinstance(sp['dr'], int) else float(sp['dr']))     # a Python int spacing gives an integer grid
     if via == 'dk':
@@ -119,6 +119,12 @@ def make_domain(sp):
     if via == 'setters':
         d = pyPRISM.Domain(length=max(8, L // 2), dr=dr * 2)
         d.dr = dr
+        d.length = L
+        return d
+    if via == 'dk_then_length':
+        # configured through dk, then only the number of points is changed (dr must be kept, dk must follow)
+        L0 = max(4, L // 2)
+        d = pyPRISM.Domain(length=L0, dk=np.pi / (dr * L0))
         d.length = L
         return d
     if via == 'setters_dk':
@@ -129,7 +135,7 @@ def make_domain(sp):
     return pyPRISM.Domain(length=L, dr=dr)
 
 
-VIAS = ['dr', 'dr', 'dr', 'dk', 'setters', 'setters_dk']
+VIAS = ['dr', 'dr', 'dr', 'dk', 'setters', 'setters_dk', 'dk_then_length']
 
 
 def sigma_of(sp, a, b):
